@@ -64,6 +64,20 @@ var statusCmd = &cobra.Command{
 			filePath := string(entry.Path)
 			if _, err := os.Stat(filePath); os.IsNotExist(err) {
 				deletedFiles = append(deletedFiles, filePath)
+			} else if client.Ignore.IsIncluded(filePath, client.Idx) {
+				// ignore rules hide untracked files only, but the walk above skips every ignored path,
+				// so a tracked file which is ignored must be checked here
+				data, err := os.ReadFile(filePath)
+				if err != nil {
+					return fmt.Errorf("fail to read %s: %w", filePath, err)
+				}
+				obj, err := object.NewObject(object.BlobObject, data)
+				if err != nil {
+					return fmt.Errorf("fail to get new object: %w", err)
+				}
+				if !entry.Hash.Compare(obj.Hash) {
+					modifiedFiles = append(modifiedFiles, filePath)
+				}
 			}
 		}
 
